@@ -103,7 +103,7 @@ class Fn(tryexc.TryExcept, Stmts):
     STATE = '#no-state'
     DUPLICATE_ON_RETURN = True
     CAUGHT = {'LookupError': 'EPy.Exn.isLookupError', 'UnicodeDecodeError': 'EPy.Exn.isUnicodeDecodeError', 'UnicodeError': 'EPy.Exn.isUnicodeError',
-              'Exception': 'EPy.Exn.isException', 'EncodingLookupError': 'EPy.Exn.isEncodingLookupError', 'FileNotFoundError': 'EPy.Exn.isFileNotFound'}
+              'Exception': 'EPy.Exn.isException', 'KeyError': 'EPy.Exn.isKeyError', 'EncodingLookupError': 'EPy.Exn.isEncodingLookupError', 'FileNotFoundError': 'EPy.Exn.isFileNotFound'}
     EXC_TYPE = EXC
     EXC_ASSERT = '.error .assertion'
     EXC_UNREACHABLE = '.assertion'
@@ -188,6 +188,14 @@ class Fn(tryexc.TryExcept, Stmts):
             bad(e, f'unknown name {e.id}')
         if isinstance(e, ast.UnaryOp) and isinstance(e.op, ast.Not):
             return f'(!{atom(self.cond(e.operand, env, B))})', BOOL
+        if isinstance(e, ast.BoolOp):
+            # `a and b` / `a or b` on bools without partial operations (nothing to short-circuit)
+            parts = []
+            for x in e.values:
+                n0 = len(B)
+                parts.append(atom(self.cond(x, env, B)))
+                if len(B) != n0: bad(e, 'and / or over a partial operation')
+            return '(' + (' && ' if isinstance(e.op, ast.And) else ' || ').join(parts) + ')', BOOL
         if isinstance(e, ast.BinOp) and isinstance(e.op, ast.Add):
             a, aty = self.expr(e.left, env, B)
             b, bty = self.expr(e.right, env, B)
